@@ -462,8 +462,19 @@ def refused(guards, cond, facts=()):
     """some refusal met is the condition `cond`, however it is written (`x < 7` is `x <= 6`, `!(a < b)` is `b <= a`, a
     range pattern is two comparisons): compared as functions of the inputs by the decision procedure"""
     want = ite(cond, ONE, ZERO)
+    def conjuncts(c): return conjuncts(c[1]) + conjuncts(c[2]) if c[0] == 'band' else [c]
+    def tidy(c):
+        # drop a conjunct `t <= K` that another conjunct `t <= y` implies because y cannot exceed K (`a + b` fits the type
+        # *and* is within the table: the second says it all)
+        cs = conjuncts(c)
+        keep = [x_ for x_ in cs if not (x_[0] == 'le' and x_[2][0] == 'c' and any(y_ is not x_ and y_[0] == 'le' and y_[1] == x_[1] and rng(y_[2])[1] <= x_[2][1] for y_ in cs))]
+        r = TRUE
+        for x_ in keep: r = b_and(r, x_)
+        return r
     for x in guards:
         c = x['cond']
+        if c == cond: return True
+        if is_term(c) and c[0] == 'band': c = tidy(c)
         if c == cond: return True
         if is_term(c) and len(cond_atoms(ite(c, ONE, ZERO)) | cond_atoms(want)) <= 8 and equal(ite(c, ONE, ZERO), want, facts)[0]: return True
     return False
